@@ -1,2 +1,88 @@
+import PelProofs.Trace
+import PelGen.Live
+/-
+  C15 — Trace buffers decode entry by entry, stopping at the first malformed entry.
+-/
 namespace Pel.C15
+
+/-! Pins -/
+theorem pin_header_size : ∀ v ∈ Live.trace_HDR_SIZE, v = traceHdrSize := by decide
+theorem pin_fixed_size : ∀ v ∈ Live.trace_FIXED_SIZE, v = traceFixedSize := by decide
+theorem pin_max_data_len : ∀ v ∈ Live.trace_MAX_DATA_LEN, v = maxDataLen := by decide
+theorem pin_type_fieldbin : ∀ v ∈ Live.trace_TYPE_FIELDBIN, v = typeFieldBin := by decide
+theorem pin_max_args : ∀ v ∈ Live.trace_MAX_ARGS, v = maxArgs := by decide
+
+/-- ★ if no 32-byte header can be read the whole input is hex-dumped, losslessly -/
+theorem no_header_fallback (ss : List TraceString) (b : Bytes) (h : b.length < 32) (hb : ∀ x ∈ b, x < 256) :
+    parseTrace ss b = some (s "Unable to parse trace data." :: hexdump16 b) ∧
+    parseDump fmtDefault (hexdump16 b) = b := by
+  refine ⟨?_, ?_⟩
+  · unfold parseTrace readTraceHeader
+    rw [if_pos (by simp only [traceHdrSize]; omega)]
+    rfl
+  · have h16 : (16:Nat) ^ 8 = 2 ^ 32 := by decide
+    exact parseDump_hexdumpFrom b.length b 0 (Nat.le_refl _) hb (by intro; omega)
+
+/-- ★ component, version, size and wrap count are read from bytes 4–15, 0, 20–23, 24–27 -/
+theorem header_fields (h : TraceHeaderRaw) (hw : h.WF) (rest : Bytes) :
+    readTraceHeader (h.enc ++ rest) =
+      some { ver := h.ver, comp := h.comp, size := h.size, timesWrap := h.timesWrap, nextFree := h.nextFree } := by
+  exact readTraceHeader_enc h hw rest
+
+/-- a well-formed entry is read back exactly, consuming exactly its own bytes -/
+theorem entry_read (e : TraceEntry) (he : e.WF) (pad rest : Bytes) :
+    readTraceEntry (e.enc pad ++ rest) = some (e, e.size) ∧ (e.enc pad).length = e.size := by
+  exact ⟨readTraceEntry_enc e he pad rest, e.enc_length he pad⟩
+
+/-- ★ an entry is rejected exactly when it is truncated, oversized (> 1024 data bytes), or its trailing size
+    word disagrees with its actual size -/
+theorem read_none_iff (r : Bytes) :
+    readTraceEntry r = none ↔
+      (r.length < 16 ∨ fromBE ((r.drop 4).take 2) > 1024 ∨
+       r.length < 16 + fromBE ((r.drop 4).take 2) + padOf (fromBE ((r.drop 4).take 2)) + 4 ∨
+       fromBE ((r.drop (16 + fromBE ((r.drop 4).take 2) + padOf (fromBE ((r.drop 4).take 2)))).take 4) ≠
+         16 + fromBE ((r.drop 4).take 2) + padOf (fromBE ((r.drop 4).take 2)) + 4) := by
+  exact readTraceEntry_none_iff r
+
+/-- ★ the entry loop shows, in order, the entries that start before the declared buffer size, then continues
+    on what follows (and stops there if that is not a readable entry) -/
+theorem entries_shown (size : Nat) : ∀ (es : List (TraceEntry × Bytes)) (idx : Nat) (rest : Bytes),
+    (∀ p ∈ es, p.1.WF) →
+    traceLoop size idx (es.flatMap (fun p => p.1.enc p.2) ++ rest) =
+      specShown size idx (es.map (·.1)) ++
+        (if (specShown size idx (es.map (·.1))).length = es.length
+         then traceLoop size (idx + (es.map (·.1.size)).sum) rest else []) := by
+  exact traceLoop_entries size
+
+theorem stops_at_malformed (size idx : Nat) (r : Bytes) (h : readTraceEntry r = none) : traceLoop size idx r = [] := by
+  exact traceLoop_none size idx r h
+
+theorem stops_at_size (size idx : Nat) (r : Bytes) (h : size ≤ idx) : traceLoop size idx r = [] := by
+  exact traceLoop_ge size idx r h
+
+/-- ★ the trace string for a hash is the first with the same hash, else the LAST whose hash agrees modulo
+    100000, else none -/
+theorem string_choice (ss : List TraceString) (h : Nat) : getTraceString ss h = specChoice ss h := by
+  exact getTraceString_eq ss h
+
+/-- formatting of one entry is the declarative rendering -/
+theorem entry_lines (ss : List TraceString) (e : TraceEntry) (he : e.WF) :
+    formatTraceEntry ss e = specEntryLines ss e := by
+  exact formatTraceEntry_eq ss e he
+
+/-- ★ round trip: header + well-formed entries + whatever follows (nothing readable, or beyond the declared
+    size) is displayed as header fields and exactly the entries that start before the declared size -/
+theorem roundtrip (ss : List TraceString) (h : TraceHeaderRaw) (hw : h.WF) (es : List (TraceEntry × Bytes))
+    (hes : ∀ p ∈ es, p.1.WF) (trailing : Bytes)
+    (ht : readTraceEntry trailing = none ∨ h.size ≤ 32 + (es.map (·.1.size)).sum) :
+    parseTrace ss (h.enc ++ es.flatMap (fun p => p.1.enc p.2) ++ trailing) = specTrace ss h (es.map (·.1)) := by
+  exact parseTrace_roundtrip ss h hw es hes trailing ht
+
+/-- the data shown for an entry parses back to the entry's data bytes -/
+theorem entry_dump_lossless (e : TraceEntry) (he : e.WF) :
+    parseDump fmtDefault (hexdump16 e.data) = e.data := by
+  obtain ⟨_, _, _, _, _, hl, hm, hb⟩ := he
+  have h16 : (16:Nat) ^ 8 = 2 ^ 32 := by decide
+  exact parseDump_hexdumpFrom e.data.length e.data 0 (Nat.le_refl _) hb (by intro; omega)
+
 end Pel.C15
